@@ -18,6 +18,8 @@ def span_zero(case):
 
 
 def make_case(rng, i):
+    if i % 12 == 7:
+        return gen_planted.gen_slow(rng)
     case = _make_case(rng, i)
     if i % 5 == 3:
         case = span_zero(case)
@@ -33,7 +35,11 @@ def _make_case(rng, i):
     if kind in (3, 4):
         return gen_planted.gen_noisy(rng)
     case = gen_series.gen(rng, force='long', dyadic=True)
-    case['grid_step'] = rng.choice([1.0, 0.5, 0.25, 2.0, 0.125])
+    zs = [v for _, v in case['z']]
+    # keep the number of grid levels moderate: these records can span metres
+    span = max(zs) - min(zs)
+    steps = [g for g in (0.125, 0.25, 0.5, 1.0, 2.0, 4.0, 8.0, 16.0, 64.0) if span / g <= 2500]
+    case['grid_step'] = rng.choice(steps[:3] or [64.0])
     return case
 
 
@@ -109,6 +115,12 @@ def run_dataset(ctx, prop, case, via='function', index=0, reference=None, kinds=
                 }.get(key, True)
                 if not confirmed:
                     key = 'raises-without-cause:' + key
+                    if prop == 'C08' and comps and len(comps[0][1]) >= 2 and (len(comps) == 1 or comps[1][0] < comps[0][0]):
+                        # spowtd declares that there is nothing to assemble although the walker's own
+                        # union-find finds a unique main body of two or more intervals: they are left out
+                        rec.violation(kind + '-main-body-exists-but-no-curve-is-assembled',
+                                      {'exception': desc, 'components_levels_sizes': [(nl, len(m)) for nl, m in comps[:5]]}, case, 'dataset')
+                        continue
                 if key.startswith('refusal:'):
                     rec.hit(kind + ':' + key)
                 elif key == 'main-body-single-interval':
